@@ -3,9 +3,9 @@ CONSTANTS
   Kinds <- KindsTwo
   CleanupIds = {"c1"}
   DetailNames <- NamesMid
-  Mismatches = {"m1", "m2"}
+  Mismatches = {"m2"}
   Attrs = {"a_missing", "a_none"}
-  Fixtures = {"f_tb", "f_two", "f_bad", "f_cr", "f_gr", "f_nestbad", "f_nestcr", "f_classic"}
+  Fixtures = {"f_two", "f_bad", "f_cr", "f_gr", "f_nestbad", "f_classic"}
   MaxFaults = 1
   MaxSteps = 2
   MaxTotalSteps = 2
